@@ -161,7 +161,76 @@ def k_rdd_init():
     return f'Definition rdd_init_refused (ctx_locked : bool) : bool :=\n  {c}.\n'
 
 
+def _checked_subclasses():
+    """Every dataset class derived from RDD that has its own __init__ starts it with RDD.__init__(self, ...)
+    (or super().__init__(...)), i.e. goes through the lock test."""
+    names = []
+    for cls in tree(RDD).body:
+        if not (isinstance(cls, ast.ClassDef) and any(getattr(b, 'id', None) == 'RDD' for b in cls.bases)):
+            continue
+        init = [s for s in cls.body if isinstance(s, ast.FunctionDef) and s.name == '__init__']
+        if not init:
+            names.append(cls.name)
+            continue
+        first = _no_doc(init[0].body)[0]
+        call = first.value if isinstance(first, ast.Expr) and isinstance(first.value, ast.Call) else None
+        ok = False
+        if call is not None and isinstance(call.func, ast.Attribute) and call.func.attr == '__init__':
+            tgt = call.func.value
+            if isinstance(tgt, ast.Name) and tgt.id == 'RDD' and call.args and getattr(call.args[0], 'id', None) == 'self':
+                ok = True
+            if isinstance(tgt, ast.Call) and getattr(tgt.func, 'id', None) == 'super':
+                ok = True
+        if not ok:
+            raise Unsupported(f'{cls.name}.__init__ does not start with RDD.__init__(self, ...): no lock test for that dataset class')
+        names.append(cls.name)
+    if not names:
+        raise Unsupported('no dataset classes derived from RDD found')
+    return names
+
+
+_k_rdd_init_base = k_rdd_init
+
+
+def k_rdd_init():  # noqa: F811
+    out = _k_rdd_init_base()
+    names = _checked_subclasses()
+    return out + f'(* dataset classes whose constructor goes through RDD.__init__: {", ".join(names)} *)\n'
+
+
+def k_tolocaliterator():
+    f = find_function(tree(RDD), 'RDD.toLocalIterator')
+    body = _no_doc(f.body)
+    if not (len(body) == 1 and isinstance(body[0], ast.Return) and isinstance(body[0].value, ast.Call)
+            and isinstance(body[0].value.func, ast.Attribute) and body[0].value.func.attr == 'runJob'):
+        raise Unsupported('toLocalIterator is not a single `return self.context.runJob(...)`')
+    call = body[0].value
+    kws = {k.arg: k.value for k in call.keywords}
+    if set(kws) != {'resultHandler'} or len(call.args) != 2 or getattr(call.args[0], 'id', None) != 'self':
+        raise Unsupported(f'toLocalIterator: runJob called with keywords {sorted(kws)} / {len(call.args)} positional arguments')
+    fn = call.args[1]
+    if not (isinstance(fn, ast.Lambda) and len(fn.args.args) == 2 and isinstance(fn.body, ast.Call)
+            and getattr(fn.body.func, 'id', None) == 'list' and len(fn.body.args) == 1
+            and getattr(fn.body.args[0], 'id', None) == fn.args.args[1].arg):
+        raise Unsupported('toLocalIterator: the task function is not `lambda tc, i: list(i)` (partitions are no longer '
+                          'evaluated inside the task)')
+    h = kws['resultHandler']
+    if not (isinstance(h, ast.Lambda) and len(h.args.args) == 1):
+        raise Unsupported('toLocalIterator: resultHandler is not a one-argument lambda')
+    if isinstance(h.body, ast.GeneratorExp):
+        deferred = 'true'
+    elif isinstance(h.body, ast.Call) and getattr(h.body.func, 'id', None) in ('iter', 'list') and len(h.body.args) == 1 \
+            and isinstance(h.body.args[0], (ast.ListComp, ast.Call)):
+        deferred = 'false'
+    else:
+        raise Unsupported('toLocalIterator: resultHandler is neither a generator expression nor iter([...])')
+    return ('(* toLocalIterator: the task function materialises its partition (list(i)); the result handler returns\n'
+            '   a generator over the task results, i.e. the tasks run after runJob has returned: *)\n'
+            f'Definition tli_deferred : bool :=\n  {deferred}.\n')
+
+
 FILES = [
     ('Retry.v', 'pysparkling/context.py (_run_task, Context.runJob), pysparkling/rdd.py (RDD.__init__)', HEADER_Z,
-     [('run_task_kernel', k_run_task), ('runjob_lock_kernel', k_runjob_lock), ('rdd_init_kernel', k_rdd_init)]),
+     [('run_task_kernel', k_run_task), ('runjob_lock_kernel', k_runjob_lock), ('rdd_init_kernel', k_rdd_init),
+      ('tolocaliterator_kernel', k_tolocaliterator)]),
 ]
